@@ -272,15 +272,60 @@ class OfflineBertE(berte_mod.BertE):
         self.status = {}
 
 
-_TMPDIRS = []
+_SESSION_ROOT = {'path': None, 'pid': None}
 
 
-def _cleanup():
-    for path in _TMPDIRS:
-        shutil.rmtree(path, ignore_errors=True)
+def _session_root():
+    """Private directory (tmpfs when available) that holds the server side
+    session files of every app built by this process and its workers."""
+    if _SESSION_ROOT['path'] is None:
+        shm = '/dev/shm' if os.path.isdir('/dev/shm') else None
+        _SESSION_ROOT['path'] = tempfile.mkdtemp(prefix='c14-sessions-',
+                                                 dir=shm)
+        _SESSION_ROOT['pid'] = os.getpid()
+    return _SESSION_ROOT['path']
+
+
+def _cleanup(others_only=False):
+    root = _SESSION_ROOT['path']
+    if root is None or _SESSION_ROOT['pid'] != os.getpid():
+        return                      # only the creating process removes
+    if others_only:
+        mine = 'p%d-' % os.getpid()
+        for name in os.listdir(root):
+            if not name.startswith(mine):
+                shutil.rmtree(os.path.join(root, name), ignore_errors=True)
+        return
+    shutil.rmtree(root, ignore_errors=True)
+    _SESSION_ROOT['path'] = None
 
 
 atexit.register(_cleanup)
+
+
+def _memoise_version_lookup():
+    """``inject_global_vars`` of the real app calls pkg_resources'
+    get_distribution('bert_e') for every rendered page (a ~20 ms scan of
+    sys.path).  Memoise the real function (value or exception): only the
+    version string shown in the page footer depends on it."""
+    real = berte_server.get_distribution
+    if getattr(real, '_c14_memo', False):
+        return
+    memo = {}
+
+    def get_distribution(name):
+        if name not in memo:
+            try:
+                memo[name] = (True, real(name))
+            except Exception as err:
+                memo[name] = (False, err)
+        ok, val = memo[name]
+        if ok:
+            return val
+        raise val
+    get_distribution._c14_memo = True
+    berte_server.get_distribution = get_distribution
+
 
 
 class Ctx:
@@ -291,6 +336,7 @@ class Ctx:
         os.environ['WEBHOOK_PWD'] = HOOK_PWD
         os.environ['BERT_E_CLIENT_ID'] = 'dummy_client_id'
         os.environ['BERT_E_CLIENT_SECRET'] = 'dummy_client_secret'
+        _memoise_version_lookup()
         self.hosts = {}
         self.private_sessions = True
         for host in ('bitbucket', 'github'):
@@ -302,7 +348,7 @@ class Ctx:
             done.complete()
             berte.tasks_done.appendleft(done)
             self.hosts[host] = SimpleNamespace(
-                berte=berte, app=app, clients={}, csrf=None,
+                berte=berte, app=app, clients={}, untouched={}, csrf=None,
                 done_job_id=str(done.id))
         self.form_calls = []
 
@@ -314,8 +360,8 @@ class Ctx:
             from cachelib.file import FileSystemCache
             itf = app.session_interface
             if isinstance(getattr(itf, 'cache', None), FileSystemCache):
-                tmp = tempfile.mkdtemp(prefix='c14-sessions-')
-                _TMPDIRS.append(tmp)
+                tmp = tempfile.mkdtemp(prefix='p%d-' % os.getpid(),
+                                       dir=_session_root())
                 itf.cache = FileSystemCache(tmp, threshold=500, mode=0o600)
                 return
         except Exception:
@@ -347,6 +393,10 @@ class Ctx:
         client = hst.clients.get(session)
         if client is None:
             client = hst.clients[session] = hst.app.test_client()
+        elif hst.untouched.get(session):
+            # the previous request of this client was answered by the
+            # router (404/405): no view ran, the session is as we left it
+            return client
         with client.session_transaction() as sess:
             sess.clear()
             sess.update(SESSIONS[session])
@@ -961,6 +1011,9 @@ def execute(case):
                            data=json.dumps(payload), headers=headers)
         if isinstance(hst.berte.client, _StubGithubClient):
             obs['stub_client_calls'] = list(hst.berte.client.calls)
+    if case['kind'] != 'webhook':
+        hst.untouched[case['session']] = (
+            resp.status_code == 405 and 'Allow' in resp.headers)
     jobs = cx.drain(host)
     obs.update({
         'status': resp.status_code,
@@ -1371,9 +1424,12 @@ def _run_chunk(cases):
     return out
 
 
-def _chunk_worker(args):
+def _worker_init():
     global _CTX
     _CTX = None                 # fresh apps (and session dirs) per process
+
+
+def _chunk_worker(args):
     return _run_chunk(args)
 
 
@@ -1388,9 +1444,11 @@ def run(tier: str = 'quick', seed: int = 0, jobs: int = 16) -> dict:
     else:
         chunks = [indexed[i::nproc * 4] for i in range(nproc * 4)]
         chunks = [c for c in chunks if c]
-        with mp.get_context('fork').Pool(nproc) as pool:
+        _session_root()
+        with mp.get_context('fork').Pool(nproc, _worker_init) as pool:
             for part in pool.imap_unordered(_chunk_worker, chunks):
                 results.extend(part)
+        _cleanup(others_only=True)
     results.sort(key=lambda r: r[0])
 
     clause_counts = Counter()
@@ -1457,6 +1515,8 @@ def run(tier: str = 'quick', seed: int = 0, jobs: int = 16) -> dict:
         'server side session files go to a private temp dir (same cachelib '
         'FileSystemCache class)' if ctx().private_sessions else
         'server side session files go to /tmp/bert-e-sessions (real config)',
+        'pkg_resources.get_distribution (version string of the page footer) '
+        'is memoised for speed; nothing else of the server is altered',
         'refusal statuses 5xx are counted as refusals (the statement only '
         'asks for an error status); they are listed in observations',
         'jobs enqueued per kind: %s' % dict(accepted),
